@@ -596,3 +596,58 @@ def byte_helpers(rep, tier):
         b = h.i2osp(x, 48)
         ok &= (len(b) == 48 and h.os2ip(b) == x and b == x.to_bytes(48, "big"))
     require(rep, ok, "ground: real i2osp/os2ip satisfy the codec axioms on boundary values", None, rp)
+
+
+
+@obligation("C11", "byte_decoders_are_the_word_decoders", bound="EVERY 48-byte string (pubkey_to_G1) and EVERY 96-byte string (signature_to_G2), content symbolic: the helpers hand exactly OS2IP(bytes) / (OS2IP(first 48), OS2IP(last 48)) to decompress_G1 / decompress_G2 and return its result (or propagate its ValueError)")
+def byte_decoders(rep, tier):
+    g2p = mod("py_ecc.bls.g2_primitives")
+    from symx import sbytes
+    from symx.sbytes import SymBytes, SEQ
+    rep.encoded(g2p.pubkey_to_G1, g2p.signature_to_G2)
+    OS2IP = sbytes._uf("OS2IP", SEQ, z3.IntSort())
+
+    class Refuse(ValueError):
+        pass
+
+    for which, n in (("pubkey_to_G1", 48), ("signature_to_G2", 96)):
+        rp = {"kind": "c11_bytes_decode", "args": {"which": which}}
+        for refuse in (False, True):
+            rec = []
+
+            def dec(arg, refuse=refuse):
+                rec.append(arg)
+                if refuse:
+                    raise Refuse("decoder refuses")
+                return "POINT"
+
+            def run(ctx, which=which, n=n):
+                del rec[:]
+                b = SymBytes.var("b", length=n)
+                with world.patched(g2p, decompress_G1=dec, decompress_G2=dec):
+                    try:
+                        r = getattr(g2p, which)(b)
+                    except Refuse:
+                        return b, "refused", list(rec)
+                return b, r, list(rec)
+
+            def on_path(pth, which=which, n=n, refuse=refuse):
+                rep.paths += 1
+                if pth.kind != "ret":
+                    rep.fail("%s raised %r on a %d-byte string" % (which, pth.value, n), rp)
+                    return
+                b, r, calls = pth.value
+                g_, m_ = pth.ctx.satisfiable()
+                mb = bytes(m_.eval(b.t[z3.IntVal(i)], model_completion=True).as_long() for i in range(n)).hex() if m_ is not None else ""
+                rpm = {"kind": "c11_bytes_decode", "args": {"which": which, "bytes": mb}}
+                if len(calls) != 1:
+                    rep.fail("%s does not call the word decoder exactly once on this path (returns %r)" % (which, r), rpm)
+                    return
+                if which == "pubkey_to_G1":
+                    g, m = pth.ctx.prove(SymZ.lift(calls[0]).t == OS2IP(b.t), timeout_ms=120000)
+                else:
+                    z1, z2 = calls[0]
+                    g, m = pth.ctx.prove(z3.And(SymZ.lift(z1).t == OS2IP(z3.SubSeq(b.t, 0, 48)), SymZ.lift(z2).t == OS2IP(z3.SubSeq(b.t, 48, 48))), timeout_ms=120000)
+                require(rep, g, "%s decodes exactly the big-endian integer(s) of the string" % which, pth.decisions, rpm)
+                require(rep, r == ("refused" if refuse else "POINT"), "%s returns the word decoder's result / propagates its ValueError" % which, pth.decisions, rpm)
+            core.explore(run, on_path=on_path, ctx_kwargs=dict(branch_timeout_ms=60000))
